@@ -1374,6 +1374,30 @@ func diffGen(g *G, tier string) []M {
 			ops = append(ops, M{"op": "diff", "n": base, "m": other})
 			continue
 		}
+		if g.Chance(0.04) {
+			// two nodes that differ in one map entry only, under a key the schema has no name for (the
+			// unknown type 0, numbers past the last defined one, a negative number)
+			at, _ := base["a"].(M)
+			if at == nil {
+				at = M{}
+				base["a"] = at
+			}
+			fld := g.Pick([]string{"Identifiers", "Hashes"})
+			at[fld] = []any{[]any{1.0, "aa"}}
+			other = Normalize(base).(M)
+			key := float64(g.Pick2([]int{0, 5, 7, 99, -1, 18, 1000}))
+			if g.Chance(0.5) {
+				other["a"].(M)[fld] = []any{[]any{1.0, "aa"}, []any{key, "v"}}
+			} else {
+				at[fld] = []any{[]any{1.0, "aa"}, []any{key, "v"}}
+				other["a"].(M)[fld] = []any{[]any{1.0, "aa"}, []any{key, "w"}}
+			}
+			if g.Chance(0.5) {
+				base, other = other, base
+			}
+			ops = append(ops, M{"op": "diff", "n": base, "m": other})
+			continue
+		}
 		if g.Chance(0.05) {
 			// diff, an in-place edit of an element of a list of the second node, diff again
 			at, _ := base["a"].(M)
